@@ -53,6 +53,7 @@ def observe(files, main="m.emb"):
         ob["kinds"] = c14abs.real_kinds(errors)
         ob["messages"] = [g[0].message.split("\n")[0] for g in errors]
         ob["locations"] = [str(g[0].location) for g in errors]
+        ob["notes"] = [[str(n.location) for n in g[1:]] for g in errors]
         if not errors and ir is not None:
             ob["bo_real"] = c14abs.real_byte_orders(ir)
     # abstraction for the model
@@ -84,6 +85,36 @@ def model_line(program):
 
 def bo_line(program):
     return "BYTEORDER " + json.dumps(program, separators=(",", ":"))
+
+
+def attrs_lines(program):
+    """One `ATTRS` op per non-empty attribute list, in the order of `check_attributes_in_ir`."""
+    out = []
+    for scope, attrs in c14abs.attr_lists(program):
+        if attrs:
+            out.append(("ATTRS %s %s" % (scope, json.dumps(attrs, separators=(",", ":"))), attrs))
+    return out
+
+
+def located_from_model(answers, lists):
+    """model answers of the ATTRS ops of one case -> [(kind, location, [note locations])]."""
+    out = []
+    for ans, attrs in zip(answers, lists):
+        if not ans.startswith("located"):
+            raise common.InfraError("model answered %r to ATTRS" % ans[:100])
+        for item in [x for x in ans[len("located"):].strip().split(";") if x]:
+            kind, where = item.rsplit("@", 1)
+            where, _, note = where.partition("+")
+            idx, part = where.split(".")
+            a = attrs[int(idx)]
+            if a["loc"]["syn"]:
+                continue            # errors in synthetic copies are hidden by error.split_errors
+            out.append((kind, a["loc"][part], [attrs[int(note)]["loc"]["whole"]] if note else []))
+    return out
+
+
+def located_real(ob):
+    return [(k, l, n) for k, l, n in zip(ob["kinds"], ob["locations"], ob["notes"])]
 
 
 def expected_model_answer(ob):
@@ -1105,6 +1136,17 @@ def run_cases(chk, cases, model_ok, stats):
         if ob["program"] is not None:
             lines.append(model_line(ob["program"]))
             idx.append(len(obs) - 1)
+            if ob["exc"] is None:
+                try:
+                    al = attrs_lines(ob["program"])
+                except c14abs.OutOfScope:
+                    al = None
+                if al is not None:
+                    ob["attr_lists"] = [a for _, a in al]
+                    ob["attr_answers"] = []
+                    for ln, _ in al:
+                        lines.append(ln)
+                        idx.append(len(obs) - 1)
             if "bo_real" in ob:
                 lines.append(bo_line(ob["program"]))
                 idx.append(len(obs) - 1)
@@ -1115,6 +1157,38 @@ def run_cases(chk, cases, model_ok, stats):
         c, ob = cases[i], obs[i]
         if ans == "bad-op":
             raise common.InfraError("model rejected op for case %r" % c.text[:200])
+        if line.startswith("ATTRS "):
+            ob["attr_answers"].append(ans)
+            if len(ob["attr_answers"]) < len(ob["attr_lists"]):
+                continue
+            # all lists of this case answered: the located errors of the attribute-table rules
+            stats["model_attr_locations_checked"] = stats.get("model_attr_locations_checked", 0) + 1
+            model_loc = located_from_model(ob["attr_answers"], ob["attr_lists"])
+            kinds = ob["kinds"] or []
+            fam = [k.split(":")[0] in c14abs.ATTR_TABLE_KINDS for k in kinds]
+            if kinds and all(k in c14abs.EARLY_KINDS for k in kinds):
+                continue                    # stopped before the attribute pass
+            if kinds and all(fam):
+                real_loc = located_real(ob)  # the attribute pass reported: kinds, spans and notes, in order
+                stats["attr_errors_located"] = stats.get("attr_errors_located", 0) + len(real_loc)
+            elif not any(fam):
+                real_loc = []               # accepted, or rejected by a later pass: no attribute-table error
+            else:
+                real_loc = None             # cannot happen (a pass with errors ends the pipeline)
+            if real_loc == model_loc:
+                continue
+            stats["disagreements"] += 1
+            chk.violation("correspondence",
+                          {"input": c.text, "main": c.main, "rule": c.rule, "tag": c.tag,
+                           "model": [list(x) for x in model_loc], "observed": [list(x) for x in real_loc or []],
+                           "messages": ob.get("messages"),
+                           "expected": "every error of the attribute-table rules is located where the model says: "
+                                       "duplicate at the whole attribute (note at the first occurrence), unknown / "
+                                       "not defaultable at the name, wrong value at the value",
+                           "theorem_or_correspondence": "model_c14 ATTRS (checkAttrListL / C14_attr_errors_located) vs "
+                                                        "locations of the errors of attribute_util._check_attributes"},
+                          key="input:" + c.text, found_input=False)
+            continue
         if line.startswith("BYTEORDER "):
             stats["model_bo_checked"] = stats.get("model_bo_checked", 0) + 1
             want = expected_bo_answer(ob, ob["program"])
